@@ -22,7 +22,14 @@ Proj(f) == [p |-> f.p, kind |-> IF "struct" \in Focus THEN f.kind ELSE "",
             ro |-> IF "ro" \in Focus THEN f.ro ELSE FALSE,
             attrs |-> IF "attrs" \in Focus /\ ~f.implicit THEN <<f.cfg, f.mand, f.dflt, f.la, f.units, f.type, f.iff>> ELSE <<>>]
 ExpectedErr == BuildErr \/ CanonFinal.err
+\* C17: a lookup finds exactly the node the path names: found (and that very node) when the specification has a
+\* node at that path, nothing when a step names no child
+PathsOf(m) == {f.p : f \in CanonFlat(m)}
+LookupsOK(e) == \A k \in 1..Len(e.lookups) :
+                  LET q == e.lookups[k] IN
+                  IF q.p \in PathsOf(q.mod) THEN q.found /\ q.same ELSE ~q.found
 ObservedOK(e) ==
+  /\ ("find" \in Focus /\ ~e.errs /\ ~ExpectedErr) => LookupsOK(e)
   /\ "errs" \in Focus => e.errs = ExpectedErr
   /\ (~e.errs /\ ~ExpectedErr) =>
         \A m \in Mods : {Proj(f) : f \in CanonFlat(m)} = {Proj(f) : f \in SeqSet(e.flat[m])}
